@@ -8,7 +8,7 @@
 From Coq Require Import List String ZArith Bool Arith.
 Import ListNotations.
 From KV Require Import Base.Bytes Model.Ast Model.Value Model.Eval Model.EvalVec Model.ScanProj
-                       Proofs.EvalVecProofs Proofs.ScanProjProofs Proofs.SelectProofs.
+                       Proofs.EvalVecProofs Proofs.ScanProjProofs Proofs.BatchRowProofs.
 From KV Require Model.Limit.
 Local Open Scope nat_scope.
 Local Open Scope list_scope.
@@ -72,6 +72,19 @@ Theorem scan_proj_batch_row : forall (P R : Type)
 Proof. exact ScanProjProofs.scan_proj_batch_row. Qed.
 Print Assumptions scan_proj_batch_row.
 
+(* the fuel of the two drains is enough: with B >= 1 and a filter / projection that answer every
+   chunk, the batch drain returns a result (the out-of-model outcome is never produced by the fuel
+   bound); the row drain is by structural recursion on the stream (drain_row_spec) *)
+Theorem scan_proj_fuel_enough : forall (P R : Type)
+    (frow : P -> res bool) (fbatch : list P -> res (list bool)) (pbatch : list P -> res (list R)),
+  (forall c bs, fbatch c = Ok bs -> Forall2 (fun kv b => frow kv = Ok b) c bs) ->
+  (forall c, exists bs, fbatch c = Ok bs /\ List.length bs = List.length c) ->
+  (forall c, exists rs, pbatch c = Ok rs /\ List.length rs = List.length c) ->
+  forall (B : nat) (slots : list (option P)),
+  1 <= B -> exists outs, drain_batch fbatch pbatch B slots = Ok outs.
+Proof. exact ScanProjProofs.drain_batch_total. Qed.
+Print Assumptions scan_proj_fuel_enough.
+
 (* ------------------------------------------------------------------ composed *)
 
 (* batch_row_agree for SELECT <fields | *> WHERE <wh> (no ORDER BY / GROUP BY / LIMIT): every
@@ -84,7 +97,7 @@ Theorem batch_row_agree_select : forall (fo : fops) (re : bytes -> bytes -> res 
   exists rows, select_row fo re wh fields slots = Ok rows /\
                Forall2 (same_content fo) rows (List.concat outs) /\
                Forall (fun o => o <> []) outs.
-Proof. exact SelectProofs.select_batch_row_agree. Qed.
+Proof. exact BatchRowProofs.select_batch_row_agree. Qed.
 Print Assumptions batch_row_agree_select.
 
 (* select *: the concatenation of the batches IS the row-mode sequence *)
@@ -92,7 +105,7 @@ Theorem scan_batch_row : forall (fo : fops) (re : bytes -> bytes -> res bool)
     (B : nat) (wh : expr) (slots : list (option kvpair)) (outs : list (list (list (value fo)))),
   1 <= B -> select_batch fo re B wh None slots = Ok outs ->
   select_row fo re wh None slots = Ok (List.concat outs).
-Proof. exact SelectProofs.scan_batch_row. Qed.
+Proof. exact BatchRowProofs.scan_batch_row. Qed.
 Print Assumptions scan_batch_row.
 
 (* PARTIAL: with LIMIT (FinalLimitPlan on top).  Full statement, not proved:
@@ -110,7 +123,7 @@ Theorem batch_row_agree_select_limit_partial : forall (fo : fops) (re : bytes ->
     select_row fo re wh fields slots = Ok rows /\
     Limit.drain_row start count rows = Some lrows /\
     Forall2 (same_content fo) lrows (List.concat louts).
-Proof. exact SelectProofs.select_limit_batch_row_agree_partial. Qed.
+Proof. exact BatchRowProofs.select_limit_batch_row_agree_partial. Qed.
 Print Assumptions batch_row_agree_select_limit_partial.
 
 (* ------------------------------------------------------------------ non-vacuity *)
